@@ -24,6 +24,7 @@ mod c15;
 mod c06;
 mod c16;
 mod c19;
+mod c17;
 
 fn main() {
     util::quiet_panics();
@@ -58,6 +59,11 @@ fn main() {
         ["c14", "noncodes", n, path] => c14::noncodes(n.parse().unwrap(), path),
         ["c06", "record", runs, path] => c06::record(runs.parse().unwrap(), path),
         ["c16", "replay", path] => c16::replay(path),
+        ["c17", "replay", path] => c17::replay(path),
+        ["c17", "probe", text] => c17::probe(text),
+        ["c17", "record", runs, path] => c17::record(runs.parse().unwrap(), path),
+        ["c17", "totality", runs, path] => c17::totality(runs.parse().unwrap(), path),
+        ["c17", "parse1", path] => c17::parse1(path),
         _ => {
             eprintln!("usage: vh <prop> <replay|record> ...");
             std::process::exit(2);
